@@ -37,6 +37,7 @@ OBLIGATIONS = {
     "no_restart_between_batches": "a history ran two batches in the same process image",
     "odd_directory_name": "a data directory whose name contains glob metacharacters / spaces / non-ASCII / a .dat suffix",
     "crash_torn_record": "a crash left a torn (partial) record",
+    "long_history": "one history of 300 batches (more than 100 block files)",
     "io_error_points": "executions in which one open()/write() failed with ENOSPC and the process carried on",
     "crash_points": "crash points were met (open/write/flush/close intercepted)",
     "crash_during_rollover": "a crash happened between closing a full file and finishing the first record of the next",
@@ -641,6 +642,23 @@ def run_job(job):
                 acc.executions += 1
                 acc.transitions += 3
                 acc.nontrivial += sum(1 for b in hist if b)
+                acc.check("history", case, chk_history)
+        if sh == 0:
+            # ONE long history: 300 batches of 1..3 blocks cycling through the size alphabet (more than 100 files, every
+            # residue of the file numbering), without restarts, with a restart before every batch, and with every 7th
+            for mask_name, mk in (("none", lambda i: 0), ("all", lambda i: 1), ("every-7th", lambda i: int(i % 7 == 0))):
+                sizes = [A[(i * 5 + j) % len(A)] for i in range(300) for j in range(1 + i % 3)]
+                bl, pos = [], 0
+                for i in range(300):
+                    n = 1 + i % 3
+                    bl.append(sizes[pos:pos + n])
+                    pos += n
+                case = {"L": L, "batches": bl, "restarts": [mk(i) for i in range(299)]}
+                acc.evaluations += 300
+                acc.executions += 1
+                acc.transitions += 300
+                acc.nontrivial += 300
+                acc.ob("long_history")
                 acc.check("history", case, chk_history)
         acc.states += acc.executions
     elif part == "crash":
